@@ -26,6 +26,8 @@ let () =
                | "flw" -> Flw_driver.run_case rest
                | "tryfrom" -> Flw_driver.run_tryfrom rest
                | "conc" -> "replayed-by-the-oracle # ."
+               | "lh" -> Fmt_driver.run_lh rest
+               | "mt" -> "checked-by-the-oracle # ."
                | "fmt" -> Fmt_driver.run_fmt rest
                | "frame" -> Fmt_driver.run_frame rest
                | "spec" -> Lg_driver.run_spec_case rest
